@@ -140,6 +140,9 @@ def canon(v, _cfg=None):
         items = sorted(((canon(k, _cfg), canon(x, _cfg)) for k, x in v.items()), key=repr)
         return ("d" if t is dict else "D:" + t.__name__,) + tuple(items)
     name = t.__name__
+    if hasattr(v, "_data") and hasattr(v, "_schema") and hasattr(v, "to_tree"):
+        # a configuration object met inside a container value: compared by what it holds, not by identity
+        return ("cfg",) + tuple((k, canon(x, _cfg)) for k, x in v)
     if name == "DigestValue":
         alg = getattr(v.algorithm, "__name__", repr(v.algorithm))
         return ("dg", v.salt, v.digest, alg)
